@@ -23,6 +23,7 @@ from fgutils.utils import mol_compare
 RDLogger.DisableLog("rdApp.*")
 
 ID = "C19"
+REPEAT_PROBE = True   # engine: repeat 1 call in 5 after editing its first result in place (purity / no shared state)
 PROPS = "Props/C19.v"
 USES_GEN = ["rdkitmaps"]
 MODEL_FILES = ["Model/Rdkit.v", "Model/Wl.v", "Spec/RdkitCheck.v"]
